@@ -316,7 +316,7 @@ func TestVerifC17Req(t *testing.T) {
 			jobs = append(jobs, all[(i+seed+k*(len(all)/perDef+1))%len(all)])
 		}
 	}
-	workers := verifutil.EnvInt("VERIF_WORKERS", 48) // the jobs mostly wait (the client waits up to a second for its wire trace)
+	workers := verifutil.EnvInt("VERIF_WORKERS", 16) // (more workers run out of file descriptors: the client keeps one connection per RPC open)
 	recs := make([]map[string]*c17Recorder, workers)
 	for w := range recs {
 		recs[w] = map[string]*c17Recorder{}
@@ -340,7 +340,16 @@ func TestVerifC17Req(t *testing.T) {
 		wg.Add(1)
 		go func(w int) {
 			defer wg.Done()
+			done := 0
 			for j := range ch {
+				// the reference client opens a connection per RPC and leaves it open: drop this worker's
+				// server-side connections now and then (between two of its jobs), or a long run uses up the
+				// file descriptors of the process
+				if done++; done%100 == 0 {
+					for _, r := range recs[w] {
+						r.srv.CloseClientConnections()
+					}
+				}
 				jb := jobs[j]
 				d := defs[jb.i]
 				var obs c17ReqObs
